@@ -443,7 +443,9 @@ PROPS["C18"] = dict(
               "UNSUBSCRIBE, DISCONNECT, broker-only packets, in any order, before or after CONNECT) with 0-4 structure-aware mutations (type and "
               "flag nibbles incl. QoS 3, hostile remaining lengths up to a 5th length byte, corrupted 2-byte length prefixes / identifiers, "
               "shortened bodies, byte flips, duplicated / dropped packets, empty topic lists, identifier 0, garbage, truncation at any offset), "
-              "written in arbitrary chunks round-robin over the connections and optionally closed mid-packet; plus a list of hostile constants. "
+              "written in arbitrary chunks round-robin over the connections and optionally closed mid-packet; plus a list of hostile constants, and EVERY sequence of up to 3 (thorough 4) well-formed "
+              "packets from {PUBLISH QoS 1, PUBLISH QoS 2, PUBACK, PUBREC, PUBREL, PUBCOMP} with one identifier after CONNECT+SUBSCRIBE "
+              "(acknowledgements of the wrong type at the wrong time). "
               "Oracle inside the run: the process survives (a panic in any broker goroutine kills the test binary; the driver promotes the running "
               "case), the witness connection is still open and completes SUBSCRIBE->SUBACK, PINGREQ->PINGRESP, QoS 1 PUBLISH->PUBACK and receives "
               "its own publish, and a client connecting afterwards does the same. Thorough adds coverage-guided native fuzzing (go test -fuzz) of "
@@ -458,6 +460,7 @@ PROPS["C18"] = dict(
     runs=[
         dict(name="regress", pkg="c18", run="TestRegress", timeout=300),
         dict(name="constants", pkg="c18", run="TestConstants", timeout=400),
+        dict(name="states", pkg="c18", run="TestProtocolStates", shards=16, timeout=dict(quick=400, thorough=2400)),
         dict(name="random", pkg="c18", run="TestRandom", checks=dict(quick=480, thorough=10000), shards=16, timeout=dict(quick=400, thorough=2400), shrinktime="60s"),
         dict(name="nativefuzz", pkg="c18", fuzz="FuzzClientBytes", run="FuzzClientBytes", fuzztime=dict(thorough=150), tiers=("thorough",)),
     ],
@@ -498,7 +501,8 @@ PROPS["C20"] = dict(
               "registry, identifier pool, timeout list, retained trie, subscription trie (incl. Dump/Load), replicated state (local mutators + "
               "NotifyMsg + LocalState/MergeRemoteState + readers) and the per-session filter list; every goroutine owns a private key space, so the "
               "post-conditions (all distinct-key effects present, identifiers pairwise distinct while outstanding, every timeout item reported at "
-              "most once and exactly once if never deleted) hold for every schedule. The in-flight table is stressed the same way under C04. "
+              "most once and exactly once if never deleted) hold for every schedule. The in-flight table's concurrent programs (package c04, "
+              "TestConcurrent: no callback twice, every entry resolved exactly once after the final sweep, successful Acks == acknowledge callbacks) run here too. "
               "(2) Whole in-process broker nodes under concurrent load: publishers (QoS 0/1/2), acknowledging subscribers, churning clients "
               "(connect, subscribe, publish, unsubscribe, DISCONNECT or drop, with wills), a gossip pump with full-state exchanges and expiry sweeps "
               "all at once; afterwards: acknowledged => delivered, nothing foreign, departed sessions left no trace. A race report or a panic is a "
@@ -515,5 +519,7 @@ PROPS["C20"] = dict(
         dict(name="regress", pkg="c20", run="TestRegress", race=True, timeout=300),
         dict(name="structs", pkg="c20", run="TestStructs", race=True, checks=dict(quick=800, thorough=12000), shards=16, timeout=dict(quick=400, thorough=2400)),
         dict(name="storm", pkg="c20", run="TestStorm", race=True, checks=dict(quick=480, thorough=8000), shards=16, timeout=dict(quick=400, thorough=2400)),
+        # the in-flight table's concurrent programs live in the C04 package; they are part of this property too
+        dict(name="inflight", pkg="c04", run="TestConcurrent", race=True, checks=dict(quick=1600, thorough=8000), shards=dict(quick=4, thorough=16), timeout=dict(quick=300, thorough=1800)),
     ],
 )
